@@ -124,8 +124,10 @@ class SeqExplorer(X.Explorer):
             for a in acts:
                 for ns in self.successors(st, a):
                     self.n_transitions += 1
-                    st.eng = None if False else st.eng
                     work.append(ns)
+            # the path is linear: the engine value of an expanded state is not needed again (only its action/result for
+            # counterexample paths); dropping it keeps memory at O(n) instead of O(n * path length) at 4000 jobs
+            st.eng = None
         for m in self.monitors:
             m.at_end()
         return self
